@@ -249,6 +249,57 @@ func main() {
 }
 `, c.n, call))
 	}
+	// T11: channel statement forms whose operands are expressions (send operand of a select case, receive assigned to a
+	// captured variable, range over a slice of channels), with one helper goroutine
+	add("T11a select-send-operand", `func main() {
+	out := make(chan int, 2)
+	id, k := 3, 4
+	select {
+	case out <- id*1000 + k:
+	}
+	select {
+	case out <- (id + 1) * (k + 1):
+	default:
+	}
+	Show(<-out, <-out)
+}
+`)
+	add("T11b range-over-slice-of-channels", `func main() {
+	chans := []chan int{make(chan int, 1), make(chan int, 1)}
+	done := make(chan bool)
+	go func() {
+		for i, c := range chans {
+			c <- (i + 1) * 10
+		}
+		done <- true
+	}()
+	<-done
+	Show(<-chans[0], <-chans[1])
+}
+`)
+	add("T11c receive-into-captured-variable", `func main() {
+	ch := make(chan int, 2)
+	done := make(chan bool)
+	go func() {
+		ch <- 10
+		ch <- 20
+		done <- true
+	}()
+	<-done
+	result := 0
+	func() {
+		result = <-ch
+	}()
+	second := 0
+	func() {
+		v, ok := <-ch
+		if ok {
+			second = v
+		}
+	}()
+	Show(result, second)
+}
+`)
 	add("T8 select-default-poll", `func main() {
 	ch := make(chan int)
 	ack := make(chan bool)
